@@ -52,13 +52,16 @@ Record case := {
   c_table : string;                      (* all-pairs is_sub_type matrix over c_names; "" when raised *)
   c_edges : string;                      (* create_type_hierarchy_graph: sorted 'child<parent' joined by ','; "" when raised *)
   c_sites : option sites;
-  c_quant : option quant
+  c_quant : option quant;
+  c_raw : option (list sexp)             (* Some toks: the section is this token list, not render c_groups c_trailing
+                                            (shapes outside the grammar of sections: compared with the model only) *)
 }.
 
 Definition the_decls (c : case) : list decl := decls (c_groups c) (c_trailing c).
 
 (* ---------- model ---------- *)
-Definition model_table (c : case) : result typetable := parse_types (render (c_groups c) (c_trailing c)).
+Definition model_table (c : case) : result typetable :=
+  parse_types (match c_raw c with Some toks => toks | None => render (c_groups c) (c_trailing c) end).
 
 Definition model_types (c : case) : obs string :=
   obs_of_result (do T <- model_table c; Ok (join "," (sort_strings (type_names T)))).
@@ -326,7 +329,8 @@ Definition is_forest (c : case) : bool := forest_b (the_decls c) && plain_b c.
 Definition is_cyclic (c : case) : bool := cyclic_b (the_decls c).
 
 Definition spec_ok (c : case) : bool :=
-  if is_forest c then
+  if match c_raw c with Some _ => true | None => false end then true    (* not a section of the grammar: no expectation *)
+  else if is_forest c then
     obs_eqb String.eqb (Returned (join "," (spec_names c))) (c_types c) &&
     String.eqb (spec_matrix c) (c_table c) &&
     String.eqb (spec_edges c) (c_edges c) &&
@@ -366,9 +370,9 @@ Definition known_class (c : case) : bool := false.
 (* compact literal of a case without sites: the names the tables range over are the section's type names *)
 Definition tc (gs : list group) (tr : list string) (types : obs string) (table edges : string) : case :=
   let c0 := {| c_groups := gs; c_trailing := tr; c_names := []; c_types := types; c_table := table;
-               c_edges := edges; c_sites := None; c_quant := None |} in
+               c_edges := edges; c_sites := None; c_quant := None; c_raw := None |} in
   {| c_groups := gs; c_trailing := tr; c_names := spec_names c0; c_types := types; c_table := table;
-     c_edges := edges; c_sites := None; c_quant := None |}.
+     c_edges := edges; c_sites := None; c_quant := None; c_raw := None |}.
 
 Definition judge (c : case) : verdict := {| v_agree := agree c; v_ok := spec_ok c; v_known := known_class c |}.
 Definition run (cases : list case) : string := summary judge cases.
